@@ -504,3 +504,18 @@ func (r *Run) Finish() int {
 	}
 	return 0
 }
+
+// addViolationDirect records a violation that was established by running the real code itself
+// (no solver query behind it); the replay re-runs the real circuit on the honest proof.
+func (r *Run) addViolationDirect(site, what string, in *instance, wrapper string) {
+	cr := &circuitReplay{Kind: "circuit", Wrapper: wrapper, Instance: in.Base, K: in.K, Expect: "rejected"}
+	acc, msg := runCircuitReplay(cr, r.Repo)
+	if acc {
+		r.Infra("%s -- but the real circuit (test engine, bit decomposition) accepts the honest proof: encoding problem", what)
+		return
+	}
+	r.mu.Lock()
+	r.done = append(r.done, obResult{ob: &Ob{Name: "honest-evaluation/" + in.Name + "/" + wrapper, Family: "honest-evaluation", Site: site}, res: smt.Result{Status: "concrete", Solver: "-"}, status: "violation",
+		viol: &Violation{Site: site, What: what + " (real circuit: " + short(msg, 100) + ")", Replay: toMap(cr), Outcome: "real circuit (test.IsSolved) rejects the unmodified valid proof"}})
+	r.mu.Unlock()
+}
